@@ -45,6 +45,8 @@ def corpus_items(tier, seed, bool_only=False, uncompute_opts=(True, False)):
                     if k in seen:
                         continue
                     seen.add(k)
+                    if int(k, 16) % 5 == 0:
+                        sp["history"] = True  # see circ.compile_prog
                     dest.append(sp)
 
     c, r = [], []
